@@ -22,19 +22,19 @@ CFG = """CONSTANTS
   LIGHT = {light}
   HDEPTH = {hdepth}
   WITHSIZE = {withsize}
-  LOOPBOUND = 64
+  LOOPBOUND = {loopbound}
 SPECIFICATION {spec}
 CHECK_DEADLOCK FALSE
 {props}
 """
 
 
-def cfg_text(mode, *, nfuel=0, ndfuel=0, emit=False, rich=True, maxbytes=0, withsize=True, invariants=(), properties=(), fair=False, light=False, hdepth=2):
+def cfg_text(mode, *, nfuel=0, ndfuel=0, emit=False, rich=True, maxbytes=0, withsize=True, invariants=(), properties=(), fair=False, light=False, hdepth=2, loopbound=64):
     props = "".join(f"INVARIANT {i}\n" for i in invariants) + "".join(f"PROPERTY {p}\n" for p in properties)
     if emit:
         props += "INVARIANT Emit\n"
     return CFG.format(mode=mode, nfuel=nfuel, ndfuel=ndfuel, emit="TRUE" if emit else "FALSE", rich="TRUE" if rich else "FALSE",
-                      maxbytes=maxbytes, light="TRUE" if light else "FALSE", hdepth=hdepth, withsize="TRUE" if withsize else "FALSE", spec="FairSpec" if fair else "Spec", props=props)
+                      maxbytes=maxbytes, light="TRUE" if light else "FALSE", hdepth=hdepth, withsize="TRUE" if withsize else "FALSE", spec="FairSpec" if fair else "Spec", props=props, loopbound=loopbound)
 
 
 def corpus_types(progs, types=None):
@@ -128,10 +128,10 @@ def run_drivers_parallel(src, tmp, progs, types, cases, shards=8):
     return imp, results
 
 
-def tlc_given(tmp: Path, progs, types, cases, mode, *, tag="given", shards=8, timeout=3600, withsize=True):
+def tlc_given(tmp: Path, progs, types, cases, mode, *, tag="given", shards=8, timeout=3600, withsize=True, loopbound=64):
     """Pattern V: MC_Proto in mode 'given' / 'givenbytes' on harness-recorded cases ([p (1-based), obj, san0] / [p, data, ch0]).
     Returns the emitted records ordered like `cases`."""
-    (tmp / f"{tag}.cfg").write_text(cfg_text(mode, emit=True, withsize=withsize, invariants=("PInBounds",) if mode == "givenbytes" else ("SerLeavesModeAsFound",)))
+    (tmp / f"{tag}.cfg").write_text(cfg_text(mode, emit=True, withsize=withsize, loopbound=loopbound, invariants=("PInBounds",) if mode == "givenbytes" else ("SerLeavesModeAsFound",)))
     # (mode "givenrt": serialize the given object, deserialize the bytes; one record per case: the DeRec with rt_ok, or the SerRec if it was refused)
     cf = tmp / f"{tag}_corpus.json"
     write_corpus(cf, progs, corpus_types(progs, types))
